@@ -69,7 +69,10 @@ ASSUMPTIONS = ['CPython string hashing is the only effect of PYTHONHASHSEED',
                'only logical_stop_<digits> is masked',
                'order of dict keys of table_to_export_map and order of the edge list are '
                'recorded as notes, not compared (consumers treat them as sets)',
-               'diagnostic texts are not SQL: only the exception type is compared']
+               'diagnostic texts are not SQL: only the exception type is compared',
+               'open finding D13 (a program object that gained record type definitions '
+               'while compiling one predicate repeats them in the preamble of the next) '
+               'is executed but not compared; the exclusions are counted']
 
 # ---- the three analysed genuine defects D2, D2B, D3 were repaired in /repo (fix: commits
 # 458d533, b8852c3, 916a49b); nothing is excluded any more.  VERIF_C13_EXCLUDE=D2,D2B,D3
@@ -79,6 +82,18 @@ _exc = set(x.strip().upper() for x in os.environ.get('VERIF_C13_EXCLUDE', '').sp
 EXCLUDE_D2 = 'D2' in _exc     # statement order of iteration closure follows set order
 EXCLUDE_D2B = 'D2B' in _exc   # order of >= 2 iterative components follows set order
 EXCLUDE_D3 = 'D3' in _exc     # parse.TOO_MUCH stays on after an incantation main file
+# D13 (open finding, 2026-09-24): LogicaProgram.required_type_definitions only grows, so a
+# second FormattedPredicateSql on ONE program object (type-checked engines) repeats in its
+# typing preamble the record types gathered while the first predicate was compiled.
+# Excluded by construction = an 'again' step whose program object has gained type
+# definitions since it was created is executed but not compared (counted).
+# VERIF_C13_INCLUDE=D13 compares it again; the exclusion ends by itself once
+# known_findings.json lists the key as fixed.
+D13_KEY = 'history:reused_program_object:type_definitions_carried_over'
+_inc = set(x.strip().upper() for x in os.environ.get('VERIF_C13_INCLUDE', '').split(',')
+           if x.strip())
+EXCLUDE_D13 = 'D13' not in _inc and not any(
+    e.get('key') == D13_KEY and e.get('status') == 'fixed' for e in core.load_known('C13'))
 
 # Static cost table (seconds of one golden-predicate compilation, measured once on the
 # pinned tree) used ONLY to balance the corpus over shards and to keep slow files out of
@@ -129,6 +144,8 @@ def seed_bucket(what, oa=None, ob=None):
 
 
 def history_bucket(what, base, obs):
+    if (obs or {}).get('types_carried') and what[0] == 'sql_text':
+        return D13_KEY
     sb = (base or {}).get('state') or {}
     so = (obs or {}).get('state') or {}
     if sb.get('too_much') is not None and so.get('too_much') is not None and \
@@ -751,6 +768,11 @@ class Hist(object):
         d, notes = L.compare(b, o)
         for n in notes:
             self.labels.add(n)
+        if o.get('types_carried'):
+            self.labels.add('obs:program_object_carries_type_definitions')
+            if EXCLUDE_D13:
+                self.col.exclude('D13:second_predicate_on_program_object_that_gained_types')
+                return
         if d:
             self.labels.add('history_mismatch')
             self.report(st_, b, o, d)
@@ -903,4 +925,4 @@ def run_histories(ctx, col, prm, items, pool, baseline, n_hist, hs0, batch=None)
 
 def evidence_extra(col):
     return {'exclusion_flags': {'EXCLUDE_D2': EXCLUDE_D2, 'EXCLUDE_D3': EXCLUDE_D3,
-                                'EXCLUDE_D2B': EXCLUDE_D2B}}
+                                'EXCLUDE_D2B': EXCLUDE_D2B, 'EXCLUDE_D13': EXCLUDE_D13}}
